@@ -141,6 +141,8 @@ def build(ctx, feats, pin=False):
     t0 = ctx.real('t0', lo=1.0, hi=100.0) if 'finite' in feats else np.inf
     o.add_surface(index=0, thickness=t0)
     kw1 = dict(index=1, thickness=ctx.real('t1', lo=0.1, hi=10.0), material=ideal(ctx.real('n1', lo=1.0, hi=4.0)), is_stop=True)
+    if 'two_catalogues' in feats:
+        kw1['material'] = ('SF4', 'schott')          # the same glass name from two manufacturers' catalogues
     if 'flat1' not in feats:
         kw1.update(radius=ctx.real('R1', ne=0), conic=ctx.real('k1'))
     if 'aperture' in feats:
@@ -173,6 +175,8 @@ def build(ctx, feats, pin=False):
                 kw2.update(norm_x=10.0, norm_y=12.0)
     if 'abbe' in feats:
         kw2['material'] = AbbeMaterial(ctx.real('nd', lo=1.45, hi=1.9), ctx.real('vd', lo=25.0, hi=70.0))
+    if 'two_catalogues' in feats:
+        kw2['material'] = ('SF4', 'hikari')
     if 'lambertian' in feats:
         kw2['bsdf'] = LambertianBSDF()
     o.add_surface(**kw2)
@@ -203,7 +207,7 @@ def build(ctx, feats, pin=False):
 FEATURE_SETS = [
     ('basic',), ('finite', 'aperture', 'coating'), ('tilt', 'even_asphere'), ('polynomial', 'bsdf'), ('chebyshev', 'nm'),
     ('plane', 'fno'), ('mirror',), ('abbe', 'lambertian'), ('pickup',), ('solve',), ('finite', 'telecentric'), ('fresnel',),
-    ('polarized',),
+    ('polarized',), ('two_catalogues',),
 ]
 
 
